@@ -147,7 +147,7 @@ def chord_unit(draw, n, kinds=("ii", "ii", "ii", "ii", "xi", "ix", "xx")):
         sp = draw(fl(SIG_MIN, 1.0 - SIG_MIN))
     sp = min(max(sp, SIG_MIN), 1.0 - SIG_MIN - 2e-3)
     gap = draw(st.one_of(fl(1e-3, 1.0 - SIG_MIN - sp),
-                         st.sampled_from([1e-3, 1e-2, 0.1, 2e-5])))
+                         st.sampled_from([1e-3, 1e-2, 0.1])))
     sq = min(sp + gap, 1.0 - SIG_MIN)
     if draw(st.booleans()):
         sp, sq = 1.0 - sp, 1.0 - sq          # mirror: p beyond q
